@@ -399,9 +399,9 @@ def rule_nonlinear(X, site):
     seen, dead, live = live_reach(X)
     ctor = []
     for k, fi in sorted(C.A.prog.fns.items()):
-        for n in ast.walk(fi.node):
-            if isinstance(n, ast.Call) and ast.unparse(n.func).endswith('NonLinearQuantParams'):
-                if fi.kind == 'module' or owner_fn_key(C, k, n) == k: ctor.append(k)
+        for st in fi.stmts:
+            for n in effects.Program._own_nodes(st):
+                if isinstance(n, ast.Call) and ast.unparse(n.func).endswith('NonLinearQuantParams'): ctor.append(k)
     ctor = sorted(set(ctor))
     if not ctor: return core.UNKNOWN, 'ast-dataflow+exhaustive-native', 'no constructor of NonLinearQuantParams found (vacuous)'
     bad = [k for k in ctor if k in seen]
@@ -409,14 +409,14 @@ def rule_nonlinear(X, site):
     algs = sorted({r['algorithm_key'] for rec in X.F['recipes'].values() for r in rec.get('rules', [])})
     return core.PROVED, 'ast-dataflow+exhaustive-native', (f'called only under isinstance(quant_params, NonLinearQuantParams); NonLinearQuantParams is constructed only in {[k[1] for k in ctor]} ({ctor[0][0]}), '
             f'functions the real registry never selects for the shipped recipes (algorithms named by shipped rules: {algs}; {len(dead)} registered functions dead under the resolution table)')
-def owner_fn_key(C, k, n): return k
 
 def rule_bitwidth(X, site):
     """num_bits reaching quant_params_to_tflite_type: census of every UniformQuantParams constructor + z3 table (added by dtype_tables)"""
     C = X.C; kinds = []; lits = set()
     for k, fi in sorted(C.A.prog.fns.items()):
         if k not in C.reach or fi.kind == 'module': continue
-        for n in ast.walk(fi.node):
+        for st_ in fi.stmts:
+          for n in effects.Program._own_nodes(st_):
             if isinstance(n, ast.Call) and ast.unparse(n.func).endswith('UniformQuantParams') and not ast.unparse(n.func).endswith('from_tfl_tensor_details'):
                 v = next((kw.value for kw in n.keywords if kw.arg == 'num_bits'), n.args[0] if n.args else None)
                 if v is None: return core.UNKNOWN, 'z3+ast-dataflow', f'{k[1]}:{n.lineno} no num_bits argument'
@@ -553,16 +553,26 @@ def decide_sites(C, F, reached, z3_tables, rep=None):
         ob = core.Ob(s['id'], fn, be, st, time.time() - t0, clause=clause)
         if isinstance(det, dict): ob.replay = det; ob.detail = str(det.get('observed'))[:300]
         else: ob.detail = det
-        hits = sorted(reached.get(s['id'], []), key=lambda h: (len(h[1]['ops']), len(h[1]['outs']), 'a8w8' not in h[0], json.dumps(h[1]), h[0]))
+        hits = sorted(reached.get(s['id'], []), key=lambda h: (any(b < -1 for _, _, b in h[1]['ops']), len(h[1]['ops']), len(h[1]['outs']), 'a8w8' not in h[0], json.dumps(h[1]), h[0]))
         if hits:
             rid, spec, r = hits[0]
             if st == core.PROVED and rep is not None: rep.errors.append(f'{s["id"]}: the registered unreachability argument is contradicted by a native run')
             ob.status = core.REFUTED; ob.backend = 'bounded-native'
             ob.detail = f'reached natively by {len(hits)} generated model(s) through the public API; first: {rid} {json.dumps(spec)}: {r.get("exc")}: {r.get("msg")}'
             ob.replay = dict(confirmed=True, inputs=dict(level='api', recipe=rid, spec=spec, n_samples=r.get('n_samples', 1), seed=r.get('seed', 0)), observed={k: r.get(k) for k in ('stage', 'exc', 'msg', 'site')}, failing_models=len(hits),
-                             more=[dict(recipe=a, spec=b) for a, b, _ in hits[1:4]])
+                             more=_diverse(hits[1:]))
         ob.site = s; obs.append(ob)
     return obs, listed, X
+
+def _diverse(hits):
+    """a few further failing inputs of different shape: other recipe, exported intermediate tensor, tied constant"""
+    out = []; seen = set()
+    for a, b, r in hits:
+        cat = (a, len(b['outs']) > 1, any(x < -1 for _, _, x in b['ops']))
+        if cat in seen: continue
+        seen.add(cat); out.append(dict(recipe=a, spec=b, exported_intermediate=cat[1], constant_operand=cat[2]))
+        if len(out) >= 8: break
+    return out
 
 def exclusion_argument(X, kid_class, site):
     """function-level argument that OUTSIDE the class the site is not reached -> (ok, text)"""
